@@ -23,7 +23,11 @@ f0bd2e1 made every restore start from a clean state, and was dropped; likewise C
 inherited program's .b time check when the parent is already loaded) stopped manifesting after repair 46b1ffa gave every
 program a `newest_source` stamp that makes that check redundant; and C13-F (ASCII port: line cursor advanced after
 the process_input apply instead of before, visible only when the apply raised an error) stopped manifesting after repair
-aff5db5 made that apply a safe_apply (it was DETECTED, under the same keys as the defect itself, before the repair).
+aff5db5 made that apply a safe_apply (it was DETECTED, under the same keys as the defect itself, before the repair);
+C04-D (do_catch() setting the limit flags before a pop_context() that cleared them) after repair cae90b8 stopped
+pop_context() from clearing them; and C05-D (vital-object name blanked before the saved names are captured) after repair
+831e6b5 moved the failing reload under its own error context, so the unwind handler no longer runs on that path.  Both
+had been DETECTED before those repairs.
 
 | seed | property | mechanism | needs | result |
 |---|---|---|---|---|
